@@ -17,7 +17,7 @@ from .core import substream
 # ------------------------------------------------------------------ case generation
 def gen_users(rng, encrypted, max_users=3):
     users = [{'rel': 'owner', 'parent': None}]
-    n = rng.choice([1, 2, 2, 3, 3][:max_users + 2])
+    n = rng.choice([1, 2, 2, 3, 3, 4, 4][:max_users + 2 if max_users < 4 else 7])
     n = min(n, max_users)
     for i in range(1, n):
         if encrypted:
